@@ -23,6 +23,7 @@ import (
 	"sigs.k8s.io/controller-runtime/pkg/client"
 	crlog "sigs.k8s.io/controller-runtime/pkg/log"
 
+	autoscalingv1beta1 "sigs.k8s.io/karpenter/pkg/apis/autoscaling/v1beta1"
 	v1 "sigs.k8s.io/karpenter/pkg/apis/v1"
 	"sigs.k8s.io/karpenter/pkg/cloudprovider"
 	"sigs.k8s.io/karpenter/pkg/controllers/disruption"
@@ -30,6 +31,7 @@ import (
 	"sigs.k8s.io/karpenter/pkg/controllers/state"
 	"sigs.k8s.io/karpenter/pkg/operator/options"
 	pscheduling "sigs.k8s.io/karpenter/pkg/scheduling"
+	podutils "sigs.k8s.io/karpenter/pkg/utils/pod"
 
 	"verifharness/kit"
 )
@@ -99,11 +101,30 @@ func runOp(c *kit.Ctx, w *world, idx int) {
 	if op.Advance > 0 {
 		w.clk.Step(time.Duration(op.Advance) * time.Second)
 	}
-	// pods that fail validation (read-only: Validate looks at the pod and reads PVCs)
+	// pods that fail validation (read-only: Validate looks at the pod and reads PVCs), under the same fault plan as the call
+	w.faultVerb.Store(op.Fault)
 	var rejected []types.NamespacedName
+	var allPods []types.NamespacedName // what Schedule hands to the scheduler: valid pending pods + pods of deleting nodes
 	for _, p := range w.pending {
+		if !podutils.IsProvisionable(p) {
+			continue // e.g. a pod that is preempting: GetProvisionablePods never returns it
+		}
 		if err := w.prov.Validate(w.ctx, p); err != nil {
 			rejected = append(rejected, client.ObjectKeyFromObject(p))
+		} else {
+			allPods = append(allPods, client.ObjectKeyFromObject(p))
+		}
+	}
+	if dp, e := w.cluster.DeepCopyNodes().Deleting().CurrentlyReschedulablePods(w.ctx, w.c, w.clk, w.rec); e == nil {
+		for _, p := range dp {
+			allPods = append(allPods, client.ObjectKeyFromObject(p))
+		}
+	}
+	w.faultVerb.Store("")
+	noPool := true
+	for _, p := range w.j.Pools {
+		if !p.NotReady && !p.Static {
+			noPool = false
 		}
 	}
 	pre := w.snap()
@@ -169,6 +190,8 @@ func runOp(c *kit.Ctx, w *world, idx int) {
 		outcome = "OErrEarly"
 	case err != nil:
 		outcome = "OErrLate"
+	case !reached && op.Kind == "prov" && noPool && len(allPods) > 0:
+		outcome = "ONoPools" // ErrNodePoolsNotFound: every pod is recorded as failed
 	case !reached:
 		outcome = "OEmpty"
 	}
@@ -185,10 +208,17 @@ func runOp(c *kit.Ctx, w *world, idx int) {
 	written := map[string]bool{}
 	placed := 0
 	placedOn := map[string]bool{}
+	virtualPlaced := 0
 	for _, en := range results.ExistingNodes {
 		if len(en.Pods) > 0 {
 			placed += len(en.Pods)
-			placedOn[en.ProviderID()] = true
+		}
+		for _, p := range en.Pods { // only real pods nominate; CapacityBuffer virtual pods do not
+			if p.Annotations[autoscalingv1beta1.FakePodAnnotationKey] != autoscalingv1beta1.FakePodAnnotationValue {
+				placedOn[en.ProviderID()] = true
+			} else {
+				virtualPlaced++
+			}
 		}
 		if o, ok := preNodes[en.ProviderID()]; ok {
 			for f, h := range nodeFieldHashes(en.StateNode) {
@@ -249,6 +279,9 @@ func runOp(c *kit.Ctx, w *world, idx int) {
 	if placed > 0 {
 		c.Count("placed-on-existing:yes")
 	}
+	if virtualPlaced > 0 {
+		c.Count("virtual-buffer-pod-placed-on-existing:yes")
+	}
 	if len(results.PodErrors) > 0 {
 		c.Count("pod-errors:yes")
 	}
@@ -307,6 +340,15 @@ func runOp(c *kit.Ctx, w *world, idx int) {
 			ncs = append(ncs, kit.GPair(kit.GStr(name), kit.GList(ps)))
 		}
 		resultMark = fmt.Sprintf("(Some (mkMark %s %s %s))", kit.GList(errs), kit.GList(nps), kit.GList(ncs))
+	}
+	if outcome == "ONoPools" {
+		var errs []string
+		for _, k := range allPods {
+			if id := w.podID(k); id >= 0 {
+				errs = append(errs, kit.GZ(id))
+			}
+		}
+		resultMark = fmt.Sprintf("(Some (mkMark %s [] []))", kit.GList(errs))
 	}
 	var bookRows, rej []string
 	var rejNames []string
@@ -435,6 +477,82 @@ func aliasCase(c *kit.Ctx, w *world) {
 	c.AddCase("CaseAlias "+kit.GList(g), map[string]interface{}{"kind": "alias", "world": w.j, "fields": j}, "")
 }
 
+// countDims records which input dimensions this world exercises (one count per world).
+func countDims(c *kit.Ctx, j jWorld) {
+	dim := func(b bool, name string) {
+		if b {
+			c.Count("dim:" + name)
+		}
+	}
+	dim(j.DRA, "dra-enabled")
+	dim(j.Buffer > 0, "capacity-buffer")
+	dim(j.MaxITs > 0, "max-instance-types-small")
+	dim(j.MinValues == "BestEffort", "min-values-best-effort")
+	dim(j.Prefs == "Ignore", "preferences-ignored")
+	dim(j.BatchMax > 0, "batch-max-duration-set")
+	dim(j.CPUReq > 0, "parallel-scheduler-workers")
+	noPool := true
+	for _, p := range j.Pools {
+		dim(p.Static, "pool-static")
+		dim(p.NotReady, "pool-not-ready")
+		dim(p.ITErr != "", "pool-instance-types-"+p.ITErr)
+		dim(p.NoTypes, "pool-matches-no-type")
+		dim(p.NodeLimit > 0, "pool-node-limit")
+		dim(p.NoSched, "pool-noschedule-taint")
+		dim(p.MinValues > 0, "pool-min-values")
+		dim(p.Deleting, "pool-deleting")
+		dim(p.ConsAfter != "", "pool-consolidate-after-"+p.ConsAfter)
+		if !p.Static && !p.NotReady {
+			noPool = false
+		}
+	}
+	dim(noPool, "no-usable-pool")
+	for _, it := range j.Catalog {
+		dim(it.Huge, "type-hugepages")
+		dim(len(it.Overrides) > 0, "type-override-offerings")
+		dim(it.Reserved > 0, "type-reserved-offering")
+	}
+	pods := append([]jPod{}, j.Pending...)
+	for _, n := range j.Nodes {
+		dim(n.Unreg, "node-unregistered")
+		dim(n.Startup, "node-startup-taints")
+		dim(n.ZeroAlloc, "node-zero-cpu")
+		dim(n.NoHost, "node-no-hostname-label")
+		dim(n.Devices > 0, "node-dra-devices")
+		dim(n.Spot, "node-spot")
+		dim(n.NodeDel, "node-unmanaged-deleting")
+		dim(n.Term, "node-instance-terminating")
+		dim(n.CSINil, "node-csi-driver-without-allocatable")
+		dim(!n.Managed, "node-unmanaged")
+		dim(!n.HasNode, "node-claim-only")
+		dim(n.Deleting, "node-claim-deleting")
+		dim(n.Marked || n.LateMark, "node-marked")
+		for _, p := range n.Pods {
+			dim(p.PVC == "pvc-missing", "bound-pod-claim-deleted")
+		}
+		pods = append(pods, n.Pods...)
+	}
+	for _, p := range pods {
+		dim(p.DRA == "claim", "pod-resource-claim")
+		dim(p.DRA == "missing-claim", "pod-resource-claim-missing")
+		dim(p.TwoTerms, "pod-two-affinity-terms")
+		dim(p.PrefAff, "pod-preferred-affinity")
+		dim(p.HostIP != "", "pod-host-ip")
+		dim(p.State != "", "pod-"+p.State)
+		dim(p.Owner != "", "pod-owner-"+p.Owner)
+		dim(p.Ephemeral, "pod-ephemeral-volume")
+		dim(p.UDP, "pod-host-port-udp")
+		dim(p.Invalid != "", "pod-invalid-"+p.Invalid)
+		dim(p.PVC == "pvc-bound" || p.PVC == "pvc-nosc" || p.PVC == "pvc-emptysc", "pod-"+p.PVC)
+	}
+	for _, p := range j.Pending {
+		dim(p.Phase == "", "pending-pod-without-phase")
+	}
+	for _, d := range j.DaemonSets {
+		dim(d.DRA != "", "daemonset-resource-claim")
+	}
+}
+
 func main() {
 	c := kit.Parse("C18", os.Args[1:])
 	crlog.SetLogger(logr.Discard())
@@ -468,6 +586,11 @@ func main() {
 		r := c.Rand.Fork()
 		j := genWorld(r, c.Thorough())
 		w := newWorld(j)
+		scheduling.MaxInstanceTypes = 600
+		if j.MaxITs > 0 {
+			scheduling.MaxInstanceTypes = j.MaxITs
+		}
+		countDims(c, j)
 		if i%4 == 0 {
 			aliasCase(c, w)
 		}
